@@ -6,7 +6,7 @@ name = sys.argv[1]; also = sys.argv[2:]
 d = os.path.join("/verif/refactors", name); m = json.load(open(os.path.join(d, "meta.json"))); pid = m["property"]
 wt = "/var/tmp/rr-" + name
 subprocess.run("git -C /repo worktree remove --force %s 2>/dev/null; git -C /repo worktree add --detach %s HEAD && git -C %s apply %s/patch.diff" % (wt, wt, wt, d), shell=True, check=True, capture_output=True)
-if "first_run" not in m: m["first_run"] = {"alarm": m.get("alarm"), "check_results": m.get("check_results")}
+if "first_run" not in m: m["first_run"] = json.loads(json.dumps({"alarm": m.get("alarm"), "check_results": m.get("check_results")}))
 for p in ([pid] + also) if also else list(m.get("check_results", {pid: 0}).keys()):
     t0 = time.time()
     r = subprocess.run("VERIF_REPO=%s ./check %s" % (wt, p), shell=True, cwd="/verif", stdout=subprocess.PIPE, stderr=subprocess.STDOUT, text=True)
